@@ -230,7 +230,9 @@ def compile_col_expr(
             expr.val,
             # only give the type explicitly if we can still be sure about it
             # in nested lists with ints / floats mixed we do not give guarantees
-            dtype=expr.dtype().to_polars() if types.is_subtype(expr.dtype()) else None,
+            dtype=expr.dtype().to_polars()
+            if types.is_subtype(expr.dtype()) or types.without_const(expr.dtype()).is_float()
+            else None,
         )
 
     elif isinstance(expr, Cast):
